@@ -441,6 +441,23 @@ func scenarios(tier string, seed int64) []scenario {
 			Prefix:  []opSpec{{Kind: "start"}, {"update", 0}, {"update", 1}, {"update", 2}},
 			Threads: [][]opSpec{{{"tampered", 3}}, {{"update", 4}}, {{Kind: "waiting"}}}})
 	}
+	// an update that completes a round while the next round is already partly (or completely) stored, racing
+	// with the delivery that completes that next round: whoever works through a chain of rounds must not act on
+	// a round another call has finished meanwhile
+	{
+		cfg := scen.EdSigning("small", 3, 1, []int{0, 1, 2}, msg, 0, seed).Cfg
+		out = append(out, scenario{Name: "eddsa-signing(3 signers)/round-completion-with-next-round-half-stored-vs-its-last-message-vs-WaitingFor", Cfg: cfg, Node: 0,
+			Prefix:  []opSpec{{Kind: "start"}, {"update", 0}, {"update", 1}, {"update", 2}, {"update", 4}},
+			Threads: [][]opSpec{{{"update", 3}}, {{"update", 5}}, {{Kind: "waiting"}}}})
+		cfg2 := scen.EdSigning("small", 2, 1, []int{0, 1}, msg, 0, seed).Cfg
+		out = append(out, scenario{Name: "eddsa-signing(2 signers)/three-updates-each-completing-a-round", Cfg: cfg2, Node: 0,
+			Prefix:  []opSpec{{Kind: "start"}},
+			Threads: [][]opSpec{{{"update", 0}}, {{"update", 1}}, {{"update", 2}}}})
+		cfg3 := scen.EdKeygen("small", 2, 1, seed).Cfg
+		out = append(out, scenario{Name: "eddsa-keygen(n=2)/updates-each-completing-a-round", Cfg: cfg3, Node: 0,
+			Prefix:  []opSpec{{Kind: "start"}},
+			Threads: [][]opSpec{{{"update", 0}}, {{"update", 1}, {"update", 2}}}})
+	}
 	gen("eddsa-keygen(n=3)", scen.EdKeygen("small", 3, 1, seed).Cfg, 0, 2)
 	gen("eddsa-signing(3 signers)", scen.EdSigning("small", 3, 1, []int{0, 1, 2}, msg, 0, seed).Cfg, 0, 2)
 	gen("eddsa-resharing(new member)", scen.EdResharing(3, 1, []int{0, 2}, 2, 1, seed).Cfg, 2, 2)
